@@ -166,19 +166,31 @@ def run(ck):
             b = e2e.run_plain(os.path.join(pd, "p_go"), args, timeout=300)
             return a, b
 
+        def records(text):
+            """one record per probe: the value lines it printed and its verdict line (`<name> ok|PANIC` / `<name> recovered ...`)"""
+            recs, cur = [], []
+            for l in text.splitlines():
+                cur.append(l)
+                if l.endswith(" ok") or l.endswith(" PANIC") or " recovered " in l or l.startswith("end ") or l.startswith("round "):
+                    recs.append(cur)
+                    cur = []
+            if cur:
+                recs.append(cur)
+            return recs
+
         def diff_lines(mode, a, b):
-            la, lb = a[2].splitlines(), b[2].splitlines()
+            ra, rb = records(a[2]), records(b[2])
             out = []
-            for i, y in enumerate(lb):
-                x = la[i] if i < len(la) else "<missing>"
+            for i, y in enumerate(rb):
+                x = ra[i] if i < len(ra) else ["<missing>"]
                 if x != y:
-                    out.append((i, x, y))
-            return la, lb, out
+                    out.append((i, " / ".join(x), " / ".join(y)))
+            return ra, rb, out
 
         for mode in ("slice", "misc", "chan"):
             a, b = both([mode])
             la, lb, df = diff_lines(mode, a, b)
-            nlines += len(lb)
+            nlines += sum(len(r) for r in lb)
             classes[mode] = len(lb)
             if b[0] != 0:
                 ck.correspondence_broken("reference-run-" + mode, b[2][-500:])
@@ -187,14 +199,15 @@ def run(ck):
             seen = set()
             ctx = None
             for i, x, y in df:
-                name = " ".join(y.split(" PANIC")[0].split(" ok")[0].split(" recovered")[0].split()) if y.strip() else y
+                name = " ".join(y.split(" / ")[-1].split(" PANIC")[0].split(" ok")[0].split(" recovered")[0].split()) if y.strip() else y
                 # line pairs shift after a missing/extra value line; report the first of each probe name only
                 key = None
-                if mode == "chan" and y.startswith("send on closed"):
+                yv = y.split(" / ")[-1]
+                if mode == "chan" and yv.startswith("send on closed"):
                     key = "chan-send-on-closed-no-panic"
-                elif mode == "chan" and y.startswith("close of closed"):
+                elif mode == "chan" and yv.startswith("close of closed"):
                     key = "chan-close-of-closed-no-panic"
-                elif mode == "chan" and y.startswith("select send closed"):
+                elif mode == "chan" and yv.startswith("select send closed"):
                     key = "chan-select-send-on-closed-no-panic"
                 elif mode == "slice" and ("make(chan -1)" in y or "make(chan -1)" in x):
                     key = "make-chan-negative-size-no-panic"
@@ -205,8 +218,8 @@ def run(ck):
                 seen.add(key)
                 ck.violation(key, "probe line %d differs: llgo `%s` vs go `%s`" % (i, x[:120], y[:120]),
                              {"mode": mode, "line": i, "llgo": x, "go": y, "llgo_rc": a[0]})
-                if not key.startswith("panic-probe") and mode == "slice":
-                    break     # later lines are only shifted
+                if len(seen) >= 12:
+                    break
             if a[0] != 0 and not df:
                 ck.violation("panic-probe-%s-exit" % mode, "llgo program exits %s in mode %s" % (a[0], mode), {"stderr_tail": a[2][-400:]})
         # SIGSEGV-based probes: one per process, then twice in one process
